@@ -50,8 +50,9 @@ SPEC = dict(
         text="Lean theorems over every event list a node can experience (any order of deliveries, delays <= d, GetPeers calls anywhere): "
              "presence = most recently handled command is a register no older than PeerEntryTimeout; stale entries gone after T0+d+TTL; live, "
              "refreshing nodes (and the node itself) always listed after one refresh+d; peer list = live set after T0+d+TTL, with the code's "
-             "constants and the side condition refresh+jitter+d<TTL discharged on them. The codec round-trip is proved for comma-free addresses and "
-             "refuted in general (comma in the address: recorded finding), with the membership-level consequence also refuted. Model tied to "
+             "constants and the side condition refresh+jitter+d<TTL discharged on them. The codec round-trip (split at the last comma) is proved "
+             "for every address and every comma-free id, with the converse (ids are generated as 8 hex digits in cmd/refinery/main.go); a live "
+             "node is listed under its exact address whatever bytes it contains. Model tied to "
              "pubsub_redis.go / mapttl.go by replaying generated cluster histories on real RedisPubsubPeers instances (real listen, Start, Ready "
              "goroutine, stop, GetPeers, marshal/unmarshal) and comparing every observation, plus a monitor of the theorems' conclusions on the "
              "implementation's own peer lists.",
